@@ -382,8 +382,10 @@ int hwloc_bitmap_sscanf(struct hwloc_bitmap_s *set, const char * __hwloc_restric
 
   /* count how many substrings there are */
   count++;
-  while ((current = strchr(current+1, ',')) != NULL)
+  while ((current = strchr(current, ',')) != NULL) {
     count++;
+    current++;
+  }
 
   current = string;
   if (!strncmp("0xf...f", current, 7)) {
@@ -435,6 +437,10 @@ int hwloc_bitmap_sscanf(struct hwloc_bitmap_s *set, const char * __hwloc_restric
     }
     current = (const char*) next+1;
   }
+
+  if (count > 0)
+    /* missing substring (empty string or trailing comma), some ulongs were not set */
+    goto failed;
 
   set->infinite = infinite; /* set at the end, to avoid spurious realloc with filled new ulongs */
 
